@@ -117,6 +117,16 @@ func ClassifyC03(c C03Case) ev.Class {
 		labels = append(labels, "has-throws")
 		nt = true
 	}
+	for i, a := range m.Throws {
+		for j, b := range m.Throws {
+			if i < j && a.Type.Name == b.Type.Name && a.Type.File != b.Type.File {
+				labels = append(labels, "same-named-exceptions-of-two-files")
+				if c.Outcome == "exception" && (c.ExcIndex == i || c.ExcIndex == j) {
+					labels = append(labels, "raises-one-of-the-same-named-exceptions")
+				}
+			}
+		}
+	}
 	if len(c.Extra) > 0 {
 		labels = append(labels, "concurrent-calls")
 		nt = true
